@@ -410,6 +410,9 @@ func (s *ProofStructure) VerifyProofStructure(g *gabikeys.PublicKey, p *Proof) b
 	if p.V5Response == nil || p.MResponse == nil {
 		return false
 	}
+	if p.V5Response.Sign() < 0 || p.MResponse.Sign() < 0 {
+		return false
+	}
 
 	if uint(p.V5Response.BitLen()) > g.Params.Lm+s.ld+2+g.Params.Lh+g.Params.Lstatzk+1 ||
 		uint(p.MResponse.BitLen()) > g.Params.Lm+g.Params.Lh+g.Params.Lstatzk+1 {
@@ -418,6 +421,16 @@ func (s *ProofStructure) VerifyProofStructure(g *gabikeys.PublicKey, p *Proof) b
 
 	for i := range s.cRep {
 		if p.Cs[i] == nil || p.DResponses[i] == nil || p.VResponses[i] == nil {
+			return false
+		}
+		if p.DResponses[i].Sign() < 0 || p.VResponses[i].Sign() < 0 {
+			return false
+		}
+		// The commitments C_i are bases of the proof of knowledge, chosen by the prover. They must be
+		// units modulo N: for a non-unit (e.g. 0) every reconstructed commitment collapses to the
+		// same constant, and the proof would verify for any statement.
+		if p.Cs[i].Sign() <= 0 || p.Cs[i].Cmp(g.N) >= 0 ||
+			new(big.Int).GCD(nil, nil, p.Cs[i], g.N).Cmp(big.NewInt(1)) != 0 {
 			return false
 		}
 
